@@ -47,7 +47,7 @@ CLAIMED["C10"] = sync_entry("reader/writer holder counters and the reader-rendez
 CLAIMED["C19"] = sync_entry("phase-structured timed waits on the virtual clock: exactly the waiters whose "
                             "deadline passed time out, each later signal releases exactly one remaining "
                             "waiter, TIMEDOUT only after the deadline (cond part; blocking pool pops are "
-                            "added with the pool ops)", "DESIGN.md section 5 (C19)")
+                            "pool part: linearizable histories with pop_wait / pop_timedwait under the virtual clock)", "DESIGN.md section 5 (C19)")
 
 CLAIMED["C01"] = sync_entry("exactly-once start/end bookkeeping per incarnation with function, argument and "
                             "serving-stream checks, join-after-end, empty pools at quiescence, over generated "
@@ -85,6 +85,11 @@ CLAIMED["C17"] = sync_entry("set-of-ranks reference model: smallest unused rank 
                             "ABT_xstream_get_num, distinct ranks after concurrent creation, work completes "
                             "after revive and main-scheduler replacement",
                             "DESIGN.md section 5 (C17)")
+
+CLAIMED["C07"] = sync_entry("Wing-Gong linearizability search of every recorded pool history (call/return "
+                            "ticks, results) against a sequential FIFO / deque model; quiescent size and "
+                            "emptiness equal the model; blocking pops return in bounded virtual time",
+                            "DESIGN.md section 5 (C07)")
 
 NOT_BUILT = "check not built yet in this session (see DESIGN.md section 10 for the build order)"
 
